@@ -10,7 +10,8 @@
  *                               create screen (server format: vs_screen defaults unless given; economic =
  *                               the public switch rfbEconomicTranslate), connect, handshake
  *   fmt <bpp> <depth> <be> <tc> <rmax> <gmax> <bmax> <rs> <gs> <bs>    SetPixelFormat
- *   enc <name> [compresslevel|-] [quality|-]                            SetEncodings
+ *   enc <name> [compresslevel|-] [quality|-] [lastrect]                 SetEncodings; name "default": nothing is
+ *                                                                       sent (preferredEncoding stays -1 = Raw)
  *   corre <mw> <mh>             set cl->correMaxWidth/Height (application knob)
  *   fb <hex>                    whole framebuffer content (server format, row-major, no padding)
  *   tr ...                      ignored here (translated pixels for the model driver)
@@ -315,6 +316,7 @@ int main(void) {
     if (!strcmp(op, "enc")) {
       char name[32], a[16] = "-", b[16] = "-", c[16] = "-"; int32_t e[8]; int n = 0;
       if (sscanf(line + pos, "%31s %15s %15s %15s", name, a, b, c) < 1) { printf("bad-enc\n"); continue; }
+      if (!strcmp(name, "default")) { cur_enc = 0; continue; }
       cur_enc = enc_of(name);
       e[n++] = cur_enc;
       if (a[0] != '-') e[n++] = (int32_t)(0xFFFFFF00u + atoi(a));      /* compress level 0..9 */
